@@ -179,7 +179,7 @@ def main_c17(tier):
             cases.append({"ports": [20002, 20003], "steps": 5, "first": f})
             cases.append({"ports": [20002, 10002, 20003, 10003], "steps": 4, "first": f})
             cases.append({"ports": [20002], "steps": 6, "first": f})
-    results = H.run_cases("harness.lifecycle", "run_c17", cases, timeout_ms=60000)
+    results = H.run_cases("harness.lifecycle", "run_c17", cases, timeout_ms=60000 if tier == "quick" else 600000)
     nw = H.validate_call_witnesses(results, cmp=lambda exp, o: bool(o.get("violates")) == exp["violates"])
     H.finish("C17", tier, "model_checking", results, t0,
              rule="every sequence of <= n actions over {start, stop, enter, exit, send broadcast to port i, occupy port i, release port i, "
@@ -355,7 +355,7 @@ def main_c18(tier):
     t0 = time.time()
     steps = 4 if tier == "quick" else 6
     cases = [{"api": t, "steps": steps, "first": f} for t in (1, 2) for f in A_ACTIONS if f not in ("op", "failing_op")]
-    results = H.run_cases("harness.lifecycle", "run_c18", cases, timeout_ms=60000)
+    results = H.run_cases("harness.lifecycle", "run_c18", cases, timeout_ms=60000 if tier == "quick" else 600000)
     nw = H.validate_call_witnesses(results, cmp=lambda exp, o: bool(o.get("violates")) == exp["violates"])
     H.finish("C18", tier, "model_checking", results, t0,
              rule="every sequence of <= n actions over {connect, refused connect, operation, failing operation, disconnect, "
